@@ -1,6 +1,7 @@
 from __future__ import annotations
 
 import ast
+import copy
 import functools
 import itertools
 import re
@@ -99,8 +100,15 @@ class DefaultFormulaParser(FormulaParser):
             self.feature_flags = DefaultFormulaParser.FeatureFlags.from_spec(
                 self.feature_flags
             )
-        if isinstance(self.operator_resolver, DefaultOperatorResolver):
-            self.operator_resolver.set_feature_flags(self.feature_flags)
+        if (
+            isinstance(self.operator_resolver, DefaultOperatorResolver)
+            and self.operator_resolver.feature_flags != self.feature_flags
+        ):
+            # The resolver may be shared with other parsers (`copy.copy()`,
+            # `dataclasses.replace()`), which must not be reconfigured.
+            self.operator_resolver = copy.copy(
+                self.operator_resolver
+            ).set_feature_flags(self.feature_flags)
 
     def set_feature_flags(
         self, flags: DefaultFormulaParser.FeatureFlags | set[str]
